@@ -249,6 +249,23 @@ class SymDiGraph:
     def has_edge(self, u, v):
         return self.o.decide(self.edge(u, v))
 
+    def has_node(self, n):
+        return n in self
+
+    def number_of_nodes(self):
+        return len(self)
+
+    def order(self):
+        return len(self)
+
+    def number_of_edges(self, u=None, v=None):
+        if u is not None and v is not None:
+            return 1 if self.has_edge(u, v) else 0
+        return len(self.edges)
+
+    def size(self, weight=None):
+        return len(self.edges)
+
     def predecessors(self, n):
         if n not in self:
             raise real_nx.NetworkXError(f"The node {n} is not in the digraph.")
